@@ -303,6 +303,15 @@ def run_session(P, case):
                 cur_objs.remove(obj)
                 members["now"].remove(li)
         members["log"].append((vc.k, list(members["now"])))
+        if vc.k in (case.get("restart_at") or ()):
+            # a second start() while the generator runs is refused (assertion) and must leave the running clock alone
+            nthr = len(FakeThread.instances)
+            try:
+                clk.start()
+                vc.anomalies.append("start() on a running generator was not refused")
+            except AssertionError:
+                pass
+            del FakeThread.instances[nthr:]
         if astop["on"] and vc.k == len(vc.script) - 1:
             # the other thread calls stop() while this handler is busy: stop() runs up to its join(), then the handler returns
             th2 = FakeThread.instances[-1]
@@ -510,7 +519,8 @@ def make_case(rng, tick, idx):
         runs.append((rng.choice([0, 1, 1000, rng.below(10 ** 7)]), rng.choice([0, 5, rng.below(2000)]), make_script(rng, pat, n, tick)))
     # stop() requested by the other thread while the handler of the run's last tick is busy (else: while the worker waits)
     astop = [i for i in range(nruns) if rng.chance(1, 2)] if nruns > 1 else []
-    return dict(start=start, period=period, nlinks=nlinks, handler=handler, runs=runs, pats=pats, domain=True, astop=astop)
+    restart_at = sorted(set(rng.below(40) for _ in range(rng.range(1, 3)))) if handler and rng.chance(1, 4) else []
+    return dict(start=start, period=period, nlinks=nlinks, handler=handler, runs=runs, pats=pats, domain=True, astop=astop, restart_at=restart_at)
 
 
 def make_malformed(rng, tick):
